@@ -1028,7 +1028,8 @@ func Main(args []string) error {
 		}
 		nonChunked := []variant{}
 		for _, v := range vs {
-			if !v.chunked && v.segDurMS == 2000 {
+			// timeline+stpp is left to the fixed / random scenarios (it kills the process in the code as it is)
+			if !v.chunked && v.segDurMS == 2000 && v.name != "timeline+stpp" {
 				nonChunked = append(nonChunked, v)
 			}
 		}
